@@ -503,7 +503,7 @@ int FSolver::Static2D(CBigLinProb &L)
                 be[j]+=K;
 
                 // record avg current density in the block for use in incremental solutions
-                if (bIncremental==MS_LEGACY_FALSE) El->Jprev+=(blockproplist[El->blk].J.Re()+t)/3.;
+                if ((bIncremental==MS_LEGACY_FALSE) && (Iter==0)) El->Jprev+=(blockproplist[El->blk].J.Re()+t)/3.;
             }
 
             // contribution to be from magnetization in the block;
